@@ -607,12 +607,12 @@ func eqLen(facts []engine.Fact, lenVal ssa.Value, lk string) int64 {
 // Named exceptions: function -> reason. Each is checked for its structural
 // precondition in panicPrecondition.
 var panicExceptions = map[string]string{
-	"(*util.FullNode).index":         "only reached from the decoder through PutChild(indexToByte(i), ...) with i < 16, for which index never fails",
-	"util.GetSerializationPrefix":    "called with nodes constructed by CreateNode or the trie, which are of the four kinds it handles (C14 AGREE-typecode keeps the tables inverse)",
+	"(*util.FullNode).index":          "only reached from the decoder through PutChild(indexToByte(i), ...) with i < 16, for which index never fails",
+	"util.GetSerializationPrefix":     "called with nodes constructed by CreateNode or the trie, which are of the four kinds it handles (C14 AGREE-typecode keeps the tables inverse)",
 	"(*util.ValueNode).GetValueBytes": "the value decoded from bytes is a SecureSerializableValue, whose MarshalMsg cannot fail",
-	"(*util.LeafNode).encode":        "same: MarshalMsg of a decoded value cannot fail",
-	"(*util.FullNode).encode":        "same: MarshalMsg of a decoded value cannot fail",
-	"encryption.RawHash":             "called with []byte or string arguments only (checked at every call site in the closure)",
+	"(*util.LeafNode).encode":         "same: MarshalMsg of a decoded value cannot fail",
+	"(*util.FullNode).encode":         "same: MarshalMsg of a decoded value cannot fail",
+	"encryption.RawHash":              "called with []byte or string arguments only (checked at every call site in the closure)",
 }
 
 func noPanicIn(r *engine.Run, f *ssa.Function, entries []*ssa.Function, g *engine.RepoCG) {
